@@ -30,6 +30,9 @@ pub struct Ctx {
     pub out: Option<String>,
     pub log: Option<String>,
     pub budget_s: f64,
+    /// number of random-case loops the monitor runs one after another; loop k may use the time budget up to k/sections
+    pub sections: u32,
+    pub section_idx: u32,
     pub scale: f64,
     pub start: Instant,
     pub evaluations: u64,
@@ -65,6 +68,8 @@ impl Ctx {
             out: None,
             log: None,
             budget_s: 60.0,
+            sections: 1,
+            section_idx: 0,
             scale: 1.0,
             start: Instant::now(),
             evaluations: 0,
@@ -164,7 +169,13 @@ impl Ctx {
     }
 
     pub fn out_of_time(&self) -> bool {
-        self.start.elapsed().as_secs_f64() > self.budget_s
+        let share = if self.sections <= 1 { 1.0 } else { (self.section_idx.max(1) as f64 / self.sections as f64).min(1.0) };
+        self.start.elapsed().as_secs_f64() > self.budget_s * share
+    }
+
+    /// called at the start of every random-case loop
+    pub fn begin_random_section(&mut self) {
+        self.section_idx += 1;
     }
 
     /// should the case with this id run in this shard/replay?
